@@ -143,6 +143,7 @@ def run(ctx, rep):
     check_layouts(fx, rep)
     check_kzg_decision(fx, rep)
     check_ecrecover_decision(fx, rep)
+    check_msm_pairing(fx, rep)
     check_mapping(ctx.facts('default'), rep)
     rep.assume('the linked libraries compute the functions their EIPs name; inputs longer than 2^32 bytes are not considered in the formula grids')
 
@@ -1308,3 +1309,36 @@ def check_ecrecover_decision(fx, rep):
         rep.violation('R10-ecrecover-decision', 'ec_recover_run', 'ECRECOVER: ' + problems[0], f.where())
     else:
         rep.ok('R10-ecrecover-decision', 'ec_recover_run', 'empty output for invalid v / failed recovery, never an error; operands in order')
+
+
+# ------------------------------------------------------------------ R11
+
+def check_msm_pairing(fx, rep):
+    """R11: BLS12-381 G1MSM / G2MSM hand blst two parallel arrays, the points that are not at infinity
+    and their scalars; blst pairs them by position.  On every path through one loop iteration a point
+    is pushed exactly when its scalar is appended (an item skipped as the point at infinity must skip
+    its scalar too, or every later point is multiplied by the wrong scalar)."""
+    for nm in ('g1_msm::g1_msm', 'g2_msm::g2_msm'):
+        f = fx.fns.get(P + 'bls12_381::' + nm)
+        key = nm.split('::')[-1]
+        if f is None:
+            rep.undecided('R11-msm-pairing', key, 'not found')
+            continue
+        rep.fn(f)
+        try:
+            rs = Symx(fx, max_paths=5000, snapshot_refs=True).run(f)
+        except Budget:
+            rep.undecided('R11-msm-pairing', key, 'path budget', f.where())
+            continue
+        body = [r for r in rs if r.cut]
+        shapes = set()
+        for r in body:
+            pts = sum(1 for e in r.events if e[0].endswith('Vec::push'))
+            scs = sum(1 for e in r.events if e[0].endswith('extend_from_slice') or (e[0].endswith('Vec::extend') and e[1]))
+            shapes.add((pts, scs))
+        if not body or (1, 1) not in shapes:
+            rep.undecided('R11-msm-pairing', key, 'loop body not recognised (%s)' % sorted(shapes), f.where())
+        elif shapes - {(0, 0), (1, 1)}:
+            rep.violation('R11-msm-pairing', key, '%s: an iteration appends %s (points, scalars): the two arrays get out of step and later points are multiplied by the scalars of other items' % (key, sorted(shapes - {(0, 0), (1, 1)})), f.where())
+        else:
+            rep.ok('R11-msm-pairing', key, 'point and scalar appended together or both skipped')
